@@ -135,7 +135,59 @@ def r02g(prog: Program, chk: Check) -> None:
     )
 
 
+def r02hi(prog: Program, chk: Check) -> None:
+    chk.rule("R02.h", "when the narrowed operand is on the right of a comparison the operator is mirrored (2 < len(x) means len(x) > 2)", floor=3)
+    f = Folder(prog, "name_check_visitor")
+    try:
+        flipped = f.table("AST_TO_FLIPPED")
+        rows = {k.last: v.last for k, v in flipped.items()}
+    except (CannotFold, AnchorError):
+        rows = {}
+    chk.ob("R02.h", "name_check_visitor::AST_TO_FLIPPED", rows == {"Lt": "Gt", "LtE": "GtE", "Gt": "Lt", "GtE": "LtE"}, "pyanalyze/name_check_visitor.py", f"the operand-swap table is {rows}; it must map Lt<->Gt and LtE<->GtE")
+    vs = prog.func("name_check_visitor", "NameCheckVisitor._visit_single_compare")
+    pcalls = calls_in(vs, "_constraint_from_predicate_provider")
+    if len(pcalls) != 2:
+        raise AnchorError("_visit_single_compare: expected two _constraint_from_predicate_provider calls")
+    for c in pcalls:
+        provider, literal, op = (norm(a) for a in c.args[:3])
+        on_right = provider.startswith("rhs")
+        mirrored = isinstance(c.args[2], ast.Call) and last_attr(c.args[2]) == "_flip_comparator"
+        chk.ob(
+            "R02.h",
+            f"name_check_visitor::NameCheckVisitor._visit_single_compare::provider-on-{'right' if on_right else 'left'}",
+            mirrored == on_right,
+            prog.site("name_check_visitor", c),
+            f"predicate provider `{provider}` with operator `{op}`: the operator must be mirrored exactly when the provider is the right operand",
+        )
+    co = prog.func("name_check_visitor", "NameCheckVisitor._constraint_from_compare_op")
+    ok = False
+    for n in walk_no_nested(co):
+        if isinstance(n, ast.If) and norm(n.test) == "not is_right":
+            ok = any("_flip_comparator(op)" in norm(s) and "ext" in norm(s) for s in n.body)
+    chk.ob("R02.h", "name_check_visitor::NameCheckVisitor._constraint_from_compare_op::ext-mirrored", ok, prog.site("name_check_visitor", co), "for `5 < x` the annotation attached to x must come from the mirrored operator (Gt(5), not Lt(5))")
+    fc = prog.func("name_check_visitor", "_flip_comparator")
+    chk.ob("R02.h", "name_check_visitor::_flip_comparator::uses-table", "AST_TO_FLIPPED" in norm(fc), prog.site("name_check_visitor", fc), "_flip_comparator must consult AST_TO_FLIPPED")
+
+    chk.rule("R02.i", "a constraint is applied to a variable only if every current definition of the variable is one the condition was computed from (subset test on origins)", floor=1)
+    ac = prog.func("stacked_scopes", "FunctionScope._add_single_constraint")
+    ok = False
+    for n in walk_no_nested(ac):
+        if isinstance(n, ast.If) and n.body and isinstance(n.body[-1], ast.Return):
+            t = n.test
+            # current - constraint (non-empty)  |  not current <= constraint  |  not current.issubset(constraint)
+            if isinstance(t, ast.BinOp) and isinstance(t.op, ast.Sub) and "current" in norm(t.left) and "constraint" in norm(t.right):
+                ok = True
+            if isinstance(t, ast.UnaryOp) and isinstance(t.op, ast.Not):
+                o = t.operand
+                if isinstance(o, ast.Compare) and isinstance(o.ops[0], ast.LtE) and "current" in norm(o.left) and "constraint" in norm(o.comparators[0]):
+                    ok = True
+                if isinstance(o, ast.Call) and last_attr(o) == "issubset" and "current" in norm(o.func) and "constraint" in norm(o.args[0]):
+                    ok = True
+    chk.ob("R02.i", "stacked_scopes::FunctionScope._add_single_constraint::origin-subset", ok, prog.site("stacked_scopes", ac), "the origin test must bail out unless current origins are a subset of the constraint's origins; an overlap test applies a stale constraint to a rebinding that was never tested")
+
+
 def run(prog: Program, chk: Check) -> None:
+    r02hi(prog, chk)
     r02f(prog, chk)
     r02g(prog, chk)
     r02a(prog, chk)
